@@ -1,4 +1,5 @@
 import Ruint.Model.Pow
+import Ruint.Gen.WordsValue
 import Ruint.Model.Log
 import Ruint.Model.Root
 /-! Driver for C13: evaluates the models (`Ruint.Pow.*`, `Ruint.Log.*`, `Ruint.Root.*`) and the spec
@@ -159,13 +160,14 @@ def handle (args : List String) (impl : String) : String × String :=
       let ov : Bool := bits != 0 && decide (m ≤ sp.2)
       match op with
       | "opow" =>
-        let r := overflowingPow bits a e
+        -- the wrapper GENERATED from src/pow.rs in value mode (`Props/C13.gen_overflowing_pow_eq`)
+        let r := Ruint.Gen.val_overflowing_pow (e + 1) bits (nlimbs bits) a e
         (toHex r.1 ++ " " ++ boolStr r.2, toHex sp.1 ++ " " ++ boolStr ov)
       | "cpow" =>
         ((match checkedPow bits a e with | some v => "some " ++ toHex v | none => "none"),
          if ov then "none" else "some " ++ toHex sp.1)
       | "spow" => (toHex (saturatingPow bits a e), toHex (if ov then m - 1 else sp.1))
-      | "wpow" => (toHex (wrappingPow bits a e), toHex sp.1)
+      | "wpow" => (toHex (Ruint.Gen.val_wrapping_pow (e + 1) bits (nlimbs bits) a e), toHex sp.1)
       | _ => (toHex (Pow.pow bits a e), toHex sp.1)
     | "log" | "clog" => handleLog op bits a e impl
     | "root" => handleRoot bits a e impl
